@@ -39,6 +39,10 @@ func register(id, level string, cq, ct, fq, ft int, tq, tt time.Duration, run fu
 func init() {
 	register("C01", "exploration", 2, 8, 500, 5000, 4*time.Minute, 30*time.Minute, eng.RunGated)
 	register("C02", "exploration", 2, 8, 500, 5000, 4*time.Minute, 30*time.Minute, eng.RunGated)
+	register("C03", "exploration", 4, 16, 100, 2000, 5*time.Minute, 40*time.Minute, eng.RunFifo)
+	register("C04", "exploration", 4, 16, 20, 500, 5*time.Minute, 40*time.Minute, eng.RunHandlers)
+	register("C06", "exploration", 4, 16, 100, 2000, 5*time.Minute, 40*time.Minute, eng.RunPerNode)
+	register("C09", "exploration", 4, 16, 40, 500, 6*time.Minute, 40*time.Minute, eng.RunUsable)
 	register("C11", "exploration", 2, 8, 300, 5000, 4*time.Minute, 30*time.Minute, eng.RunCorr)
 }
 
